@@ -8,6 +8,7 @@ mkdir -p build evidence replays
 (cd lean && lake build)
 cp /repo/go.sum harness/go.sum
 python3 tools/mkgomod.py /repo harness/go.mod
+# (generated Go for the harness is committed; ./check regenerates it)
 (cd harness && go build -tags verif -o ../build/bfharness .)
 if [ -f tools/factgen/main.go ]; then (cd tools/factgen && go build -o ../../build/factgen .); fi
 echo setup-ok
